@@ -225,6 +225,7 @@ class C19(Check):
             "symbols, missing library} [and 19 error messages (empty, blank, several lines, quotes, backslash, non-ASCII, 300 characters, look-alikes of the report's own lines) raised through probe function fail_with in 4 positions (entry function, tail of it, helper function, tail of helper)]  x {echo, last, nothing, fail, missing symbol}; every call position {last instruction of the entry function, tail of a "
             "helper function, helper storing the result first, helper called twice, callback of list.map, callback of list.filter, result popped, "
             "result stored} x {echo, last, fail, missing library, missing symbol}; each assembled as a binary .mmm and executed with `mscript execute`. "
+            "Symbol names: 17 exported functions whose names (1 .. 300 bytes) are prefixes of one another, each returning its own name, and 14 names in between that are not exported, in both libraries.  "
             "Non-trivial = vector length >= 1; distinct = distinct (vector, function).")
     assumptions = ["probe dylib built against /repo/bytecode in the same cargo target dir",
                    "of the values owning GC memory only lists of ints are in the alphabet (objects, functions, maps are not)",
@@ -256,7 +257,8 @@ class C19(Check):
                for f in ("echo", "last", "nothing", "fail", "echo2")]
         libl = [("lib", "named", i) for i in range(len(LIB_NAMES))] + [("lib", "ghost", i) for i in range(len(LIB_GHOSTS))]
         errl = [("err", p_, i) for p_ in ERR_POSITIONS for i in range(len(ERR_MESSAGES))]
-        ls = [("L0f-error-messages-x-positions", errl), ("L0-len<=2", list(gen(2))), ("L0b-call-sequences-of-2", seq2), ("L0c-call-positions", posl), ("L0d-library-file-names", libl), ("L0e-list-arguments-len<=3", gcl),
+        syml = [("sym", n, lib) for n in sorted(self.SYM_EXPORTED + self.SYM_MISSING) for lib in ("A", "B")]
+        ls = [("L0g-symbol-names-of-1..400-bytes-that-are-prefixes-of-one-another", syml), ("L0f-error-messages-x-positions", errl), ("L0-len<=2", list(gen(2))), ("L0b-call-sequences-of-2", seq2), ("L0c-call-positions", posl), ("L0d-library-file-names", libl), ("L0e-list-arguments-len<=3", gcl),
               ("L1-len<=4", gen(4, 3))]
         if L > 4:
             ls.append(("L1b-call-sequences-of-3", [("seq", c) for c in itertools.product(range(len(SEQ_CALLS)), repeat=3)]))
@@ -266,6 +268,8 @@ class C19(Check):
         return ls
 
     def describe(self, case):
+        if case[0] == "sym":
+            return {"symbol-name-bytes": case[1], "exported": case[1] in self.SYM_EXPORTED, "library": case[2]}
         if case[0] == "seq":
             return {"sequence": [f"{SEQ_CALLS[i][1]}@{SEQ_CALLS[i][0]}" for i in case[1]]}
         if case[0] == "pos":
@@ -394,7 +398,41 @@ class C19(Check):
                 bad("missing-library-not-reported", f"the named file does not exist (only `{sibling}` does); got {lines} exit {res.exit} ({res.cls})")
         return {"outcome": f"lib-{kind}" + ("-DIFF" if viol else ""), "viol": viol, "nontrivial": True, "tags": ["lib", f"lib-{kind}"]}
 
+    # symbol names: the probe exports functions whose names are prefixes of one another (each returns its own name); every exported length must reach
+    # exactly that function, every length in between is a missing symbol although shorter and longer neighbours exist
+    SYM_BASE = "s" + "abcdefghij" * 40
+    SYM_EXPORTED = [1, 2, 15, 16, 17, 31, 32, 33, 63, 64, 65, 127, 128, 129, 255, 256, 300]
+    SYM_MISSING = [3, 14, 18, 30, 34, 62, 66, 126, 130, 254, 257, 299, 301, 400]
+
+    def run_sym(self, case):
+        _, n, lib = case
+        name = self.SYM_BASE[:n]
+        exported = n in self.SYM_EXPORTED
+        d = driver.fresh_dir()
+        libpath = build.PROBE_LIB if lib == "A" else build.PROBE2_LIB
+        prog = b"f __module__\0" + ins("make_int", "7") + ins("call_lib", libpath, name) + ins("printn", "*") + ins("void") + \
+            ins("make_str", "SENTINEL") + ins("printn", "*") + ins("void") + ins("ret_mod") + b"e\0"
+        driver.write_files(d, {"a.mmm": prog})
+        res = driver.run(["execute", "a.mmm"], d, env={"MSCRIPT_VERIF_TYPED_PRINT": "1"})
+        lines = res.lines()
+        viol = []
+        detail = {"case": self.describe(case), "files": {"a.mmm": prog}, "res": res.brief()}
+
+        def bad(k, what):
+            viol.append({"sig": {"kind": k, "func": "symbol-name", "length": str(n)}, "what": f"symbol of {n} bytes ({'exported' if exported else 'not exported'}): {what}", "detail": detail})
+        if exported:
+            want = ["Str:" + ("B" if lib == "B" else "") + name, "Str:SENTINEL"]
+            if res.exit != 0 or lines != want:
+                bad("wrong-symbol", f"the exported function must be called and its result delivered; got exit {res.exit} and {[x[:60] for x in lines]} {res.err[-200:]}")
+        else:
+            if res.exit == 0 or res.cls != "error" or not driver.runtime_banner(res) or lines:
+                bad("missing-symbol-not-reported", f"no such symbol exists (shorter and longer names do); got exit {res.exit} ({res.cls}) and {[x[:60] for x in lines]}")
+        return {"outcome": ("sym-exported" if exported else "sym-missing") + ("-DIFF" if viol else ""), "viol": viol, "nontrivial": True,
+                "tags": ["sym", "sym-exported" if exported else "sym-missing"]}
+
     def run_case(self, case):
+        if case[0] == "sym":
+            return self.run_sym(case)
         if case[0] == "lib":
             return self.run_lib(case)
         if case[0] == "seq":
